@@ -10,6 +10,10 @@ def run(ck):
     cfg = "CONSTANTS MaxParams = %d\nSPECIFICATION Spec\nINVARIANTS ScanAgrees Emit\nCHECK_DEADLOCK FALSE\n" % mp
     res, rows = tlc_emit(ck, "BindSig", cfg, "BindSig(<=%d params)" % mp, timeout=1200)
     replay(ck, "replay-bindsig", rows, "signatures")
+    # parameter names as sequences of character classes (letters / digits are Unicode categories of whole characters)
+    cfgn = "CONSTANTS MaxLen = %d\nSPECIFICATION Spec\nINVARIANTS ScanAgrees Emit\nCHECK_DEADLOCK FALSE\n" % (3 if q else 4)
+    resn, rowsn = tlc_emit(ck, "ParamName", cfgn, "ParamName(<=%d characters)" % (3 if q else 4), timeout=900)
+    replay(ck, "replay-paramname", rowsn, "parameter names")
     mp, ma = (3, 3) if q else (4, 5)
     cfg = ("CONSTANTS MaxParams = %d\nMaxArgs = %d\nSPECIFICATION Spec\nINVARIANTS MachineAgrees Laws Emit\n"
            "CHECK_DEADLOCK FALSE\n") % (mp, ma)
@@ -20,5 +24,7 @@ def run(ck):
     ck.cov["rule"] = ("every parameter list (kinds req/opt/variadic, names incl. duplicates, a non-ASCII letter and invalid "
                       "identifiers) up to the bound goes through CheckFnParamDef; every (valid signature, call shape) behaviour "
                       "of the binding machine - TLC checks it equals the declarative Bind - is one engine.ParseV2 + Run with a "
-                      "probe function reading every parameter through GetParam; distinct_nontrivial = accepted bindings + signatures")
+                      "probe function reading every parameter through GetParam; every parameter name made of up to 3 (thorough 4) characters over the classes ASCII letter / "
+                      "underscore / ASCII digit / non-ASCII letter / non-ASCII digit / non-ASCII sign or space / ASCII punctuation / blank (each class spelled with several characters of different "
+                      "UTF-8 lengths and lead bytes) is judged by CheckFnParamDef against the ParamName model; distinct_nontrivial = accepted bindings + signatures")
     ck.assumptions += ["argument k carries the value k; defaults are distinguishable strings"]
